@@ -6,7 +6,8 @@
 From Coq Require Import List ZArith Bool Arith.
 Import ListNotations.
 From RV Require Import Gen.GenTermination Model.Retry Model.Machine Proofs.MachineP.
-From RV Require Import Gen.GenFactsPersist.
+From RV Require Import Gen.GenFactsPersist Gen.GenPar Model.Par Proofs.ParP.
+From Coq Require Import Permutation.
 
 (** Any two orders that finish run r leave it in the same state (same invocations recorded, same
     failure counters, same samples) and produce the same sequence of process starts and recordings
@@ -51,6 +52,41 @@ Print Assumptions C11_missing_group.
 Theorem C11_persist_locked : persist_locked = true.
 Proof. reflexivity. Qed.
 Print Assumptions C11_persist_locked.
+
+(** The parallel scheduler (its arithmetic and the shape of its loops are read off
+    rebench/executor.py on every run, Gen/GenPar.v): on a machine with any number of cores it has
+    at least one worker thread, ... *)
+Theorem C11_par_threads : forall cores, (1 <= num_threads cores)%Z.
+Proof. exact num_threads_pos. Qed.
+Print Assumptions C11_par_threads.
+
+(** ... acquire_work is one step under the scheduler's lock that pops the next chunk, every worker
+    calls it until nothing remains, one worker exists per thread number and all are joined, ... *)
+Theorem C11_par_structure :
+  acquire_locked = true /\ acquire_pops = true /\ workers_loop = true /\ one_worker_per_thread = true.
+Proof. repeat split; reflexivity. Qed.
+Print Assumptions C11_par_structure.
+
+(** ... and so, for every core count and every schedule of the workers (which worker makes the next
+    call), all non-exclusive runs are handed out: nothing remains, the chunks the workers received
+    are together exactly these runs, each once, none is empty, each goes to an existing worker.
+    Each worker runs a sequential scheduler over its chunks, so the whole session is one
+    interleaving of picks that finishes every run: C11_seq_order_free applies to it. *)
+Theorem C11_par_hand_out_exact : forall (A : Type) cores sched (runs : list A),
+  let threads := Z.to_nat (num_threads cores) in
+  let got := deal threads sched (fst (hand_out cores runs)) in
+  1 <= threads
+  /\ snd (hand_out cores runs) = []
+  /\ Permutation (concat (map snd got)) runs
+  /\ Forall (fun wc => fst wc < threads /\ snd wc <> []) got.
+Proof. exact hand_out_exact. Qed.
+Print Assumptions C11_par_hand_out_exact.
+
+(** Non-vacuity: two cores (the case that started no worker before the repair d7709ba), five runs. *)
+Example C11_par_example :
+  num_threads 2 = 1%Z /\ hand_out 2 [10; 11; 12; 13; 14] = ([[14; 13; 12; 11; 10]], [])
+  /\ num_threads 16 = 6%Z /\ hand_out 16 (seq 0 8) = ([[7]; [6]; [5]; [4]; [3]; [2]; [1]; [0]], []).
+Proof. vm_compute. repeat split; reflexivity. Qed.
 
 (** Non-vacuity: two runs, the first fails once and is retried; batch order and an interleaved order. *)
 Definition ex_world : world :=
